@@ -15,7 +15,13 @@ func VH_C13() {
 	defaultWriter = newDualWriter()
 	rec := &vRec{}
 	faultsOn := true
-	rec.faults = func(w int) bool { return faultsOn && vBool() }
+	attempts, attemptLimit := 0, 1<<30
+	rec.faults = func(w int) bool {
+		// a cascade is cut at the first Write attempt beyond the bound
+		attempts++
+		vAssert(attempts <= attemptLimit, "C13: Write attempts for one call are bounded by |selected| + |warning set| (no cascade)")
+		return faultsOn && vBool()
+	}
 	lg := New("x").(*logimp).Entry
 	lg.SetColorMode(false)
 	nN := vChoose(2) + 1
@@ -64,7 +70,10 @@ func VH_C13() {
 		}
 		r := sevs[vChoose(len(sevs))]
 		n0 := len(rec.evs)
+		attempts = 0
+		attemptLimit = len(selected(r)) + len(selected(WarnLevel))
 		lg.Logit(vCtx, r, "m", "k", 1) // must return normally: a panic is reported as a violation
+		attemptLimit = 1 << 30
 		evs := rec.evs[n0:]
 		admitted := vSpecEnabled(L, r, dbg, nil)
 		if !admitted {
